@@ -21,12 +21,19 @@ package recorder
 //
 // Time is controlled, not slept through: the unexported field restartPause is set to one hour
 // ("long": the pause never ends during a run) or one millisecond ("short"). A run is observed at
-// QUIESCENT points: every goroutine of the component is parked on a channel / condition variable
-// (two identical consecutive goroutine dumps, no event in between) and the supervisor is not parked
+// QUIESCENT points: every goroutine of the component is in a blocking wait (chan receive / send, select,
+// sync.Cond.Wait, mutex: a whitelist; running, runnable, syscall, GC assist wait ... are not) in two
+// identical consecutive goroutine dumps with no event in between, and the supervisor is not parked
 // in a short restart pause (the source line of its pause select is learnt by a calibration run; if
-// that fails, stability over a window of 150 ms >> 1 ms is required instead). A quiescent state in
-// which Close has been called but has not returned is recorded as such (cp = true): nothing but a
-// one hour timer can wake the component, which is a stable observation, not a timeout.
+// that fails, stability over a window of 150 ms >> 1 ms is required instead).
+// An observation that would make a LIVENESS formula false (Close pending at rest, nobody reading while
+// open, no open segment after four regular units) is logged only after it has been CONFIRMED as provably
+// stuck: five more dumps spread over two seconds show the same goroutines in the same blocking waits,
+// nothing was logged, and a pending Close is blocked on r.done inside Close itself (r.terminate is
+// closed, nothing but a one hour timer can wake the component). Such observations carry sure = true and
+// only those are judged by the liveness formulas; if the state moves during the confirmation it was not
+// at rest and the harness keeps waiting; a run that gets no (confirmed) quiescent point within the
+// limit is inconclusive, never a verdict.
 
 import (
 	"bufio"
@@ -74,6 +81,9 @@ type vfx02Ev struct {
 	SG int    `json:"sg"`
 	CP bool   `json:"cp"`
 	FS int    `json:"fs"`
+	// q: the observation was CONFIRMED as provably at rest (>= 5 dumps over >= 2 s, every loop in a blocking
+	// wait, no event in between, a pending Close blocked on r.done). Liveness formulas are judged on these only.
+	Sure bool `json:"sure"`
 }
 
 type vfx02Run struct {
@@ -87,7 +97,9 @@ type vfx02Run struct {
 	Ms     int64 `json:"ms"`
 	// the run was cut short: the component reached a quiescent state with Close pending
 	Truncated string `json:"truncated"`
-	// harness problem (never a verdict): no quiescent point within the time limit, ...
+	// no (confirmed) quiescent point within the time limit: the run is inconclusive (never a verdict)
+	Inconclusive string `json:"inconclusive"`
+	// harness problem (never a verdict)
 	Infra string `json:"infra"`
 	// the code under test crashed the process during this run
 	Crashed string `json:"crashed"`
@@ -104,6 +116,9 @@ const (
 	vfx02Long      = 1 * time.Hour
 )
 
+// exploration only (TestVerif_X02_Script): keep the goroutine dump of every observation
+var vfx02Debug bool
+
 var vfx02Base = time.Date(2008, 5, 20, 22, 15, 25, 0, time.UTC)
 
 // ---- goroutine inspection
@@ -114,6 +129,8 @@ type vfx02G struct {
 	kind  string // sup | inst | reader | closer | harness | other (dumpers, goroutines that have not run yet)
 	line  int    // sup: source line of the frame of (*Recorder).run
 	busy  bool   // a component loop that is executing a harness callback
+	// closer: the innermost frame outside the runtime is (*Recorder).Close itself (it waits for r.done)
+	inClose bool
 }
 
 var (
@@ -159,6 +176,13 @@ func vfx02Parse(dump string) []vfx02G {
 		// a loop of the component that is inside a callback of the harness (waiting for the event log's
 		// mutex) is in the middle of a critical section, whatever its state says
 		g.busy = inHarness && !strings.Contains(blk, "recorder.(*Recorder).Close(")
+		for _, ln := range lines[1:] {
+			if strings.HasPrefix(ln, "\t") || strings.HasPrefix(ln, "runtime.") {
+				continue
+			}
+			g.inClose = strings.Contains(ln, "recorder.(*Recorder).Close(")
+			break
+		}
 		for i, ln := range lines[1:] {
 			switch {
 			case strings.Contains(ln, "recorder.(*Recorder).run("):
@@ -187,13 +211,20 @@ func vfx02Parse(dump string) []vfx02G {
 	return out
 }
 
+// vfx02Parked: the goroutine is in a blocking wait that only another goroutine of the program (or a
+// timer) can end: a channel operation, a select, a condition variable, a WaitGroup. Everything else may
+// move by itself or through the runtime: running, runnable, syscall, IO wait, sleep, preempted, GC assist
+// wait, and also "semacquire" / "sync.Mutex.Lock" / "sync.RWMutex.*": a goroutine that allocates while the
+// world is stopped for a goroutine dump or a GC cycle starts waits in [semacquire] on a RUNTIME semaphore
+// in the middle of its critical section (observed: the reader loop inside the OnData callback), and the
+// holder of a mutex is by definition somewhere else and active.
 func vfx02Parked(state string) bool {
 	switch state {
-	case "running", "runnable", "syscall", "IO wait", "sleep", "waiting", "dead", "copystack", "preempted":
-		return false
+	case "chan receive", "chan send", "select", "sync.Cond.Wait", "sync.WaitGroup.Wait",
+		"chan receive (nil chan)", "chan send (nil chan)", "select (no cases)":
+		return true
 	}
-	// select, chan receive, chan send, sync.Cond.Wait, sync.Mutex.Lock, semacquire, sync.WaitGroup.Wait, ...
-	return true
+	return false
 }
 
 // ---- the world of one run
@@ -228,6 +259,9 @@ type vfx02World struct {
 	stopSampler chan struct{}
 	samplerDone chan struct{}
 	lastDump    string
+	confirmed   int // observations confirmed as provably at rest in this run
+	keepDumps   bool
+	qdumps      []string
 }
 
 func (w *vfx02World) logEv(e vfx02Ev) {
@@ -326,7 +360,8 @@ func (w *vfx02World) snapshot() int {
 
 func vfx02NewWorld(t testing.TB, format string, pauseLine int) *vfx02World {
 	w := &vfx02World{t: t, fmt: format, pauseLine: pauseLine, env: "ok",
-		paths: map[string]int{}, snaps: map[string]int{}, links: map[string]bool{}, base: map[int]bool{}}
+		paths: map[string]int{}, snaps: map[string]int{}, links: map[string]bool{}, base: map[int]bool{},
+		keepDumps: vfx02Debug}
 	for _, g := range vfx02Parse(vfx02Stacks()) {
 		w.base[g.id] = true
 	}
@@ -499,11 +534,13 @@ type vfx02Obs struct {
 	cp           bool
 	supLines     []int
 	nev          int // number of events logged when the quiescent point was observed
+	key          string
+	closerInDone bool
 }
 
 // settle waits for a quiescent point and returns what is observed there.
 func (w *vfx02World) settle() (vfx02Obs, error) {
-	deadline := time.Now().Add(30 * time.Second)
+	deadline := time.Now().Add(60 * time.Second)
 	pause := 50 * time.Microsecond
 	var stableSince time.Time
 	var lastKey string
@@ -534,6 +571,7 @@ func (w *vfx02World) settle() (vfx02Obs, error) {
 				o.g++
 			case "closer":
 				closerParked = vfx02Parked(g.state)
+				o.closerInDone = g.state == "chan receive" && g.inClose
 			}
 			if !vfx02Parked(g.state) || g.busy {
 				stable = false
@@ -557,6 +595,7 @@ func (w *vfx02World) settle() (vfx02Obs, error) {
 			if time.Since(stableSince) >= need {
 				w.lastDump = dump
 				o.nev = n1
+				o.key = k
 				return o, nil
 			}
 		} else {
@@ -571,7 +610,7 @@ func (w *vfx02World) settle() (vfx02Obs, error) {
 		}
 		if time.Now().After(deadline) {
 			w.lastDump = dump
-			return o, fmt.Errorf("no quiescent point within 30 s (stable=%v inPause=%v)", stable, inPause)
+			return o, fmt.Errorf("no quiescent point within 60 s (stable=%v inPause=%v)", stable, inPause)
 		}
 		if stable && !inPause {
 			// confirm with a second dump right away
@@ -585,18 +624,167 @@ func (w *vfx02World) settle() (vfx02Obs, error) {
 	}
 }
 
+// once: one dump, judged like settle does; used by confirm
+func (w *vfx02World) once() (key string, stable bool, o vfx02Obs) {
+	gs := vfx02Parse(vfx02Stacks())
+	var kb strings.Builder
+	stable = true
+	closerParked := false
+	for _, g := range gs {
+		if w.base[g.id] || g.kind == "harness" {
+			continue
+		}
+		fmt.Fprintf(&kb, "%d/%s/%s/%d;", g.id, g.kind, g.state, g.line)
+		if g.kind == "closer" {
+			closerParked = vfx02Parked(g.state)
+			o.closerInDone = g.state == "chan receive" && g.inClose
+		}
+		if g.kind == "sup" && !w.pauseLong && w.pauseLine != 0 && g.line == w.pauseLine {
+			stable = false
+		}
+		if !vfx02Parked(g.state) || g.busy {
+			stable = false
+		}
+	}
+	cs := w.closeState.Load()
+	if cs == 2 || (cs == 1 && !closerParked) {
+		stable = false
+	}
+	return kb.String(), stable, o
+}
+
+// confirm: the observation o is PROVABLY at rest: five more dumps spread over two seconds show the very same
+// goroutines in the very same blocking waits, nothing was logged, and a pending Close is blocked on r.done
+// inside Close (so r.terminate is closed and whoever should serve it does not).
+func (w *vfx02World) confirm(o vfx02Obs) bool {
+	cs := w.closeState.Load()
+	for i := 0; i < 5; i++ {
+		time.Sleep(500 * time.Millisecond)
+		k, stable, o2 := w.once()
+		if !stable || k != o.key || w.evCount() != o.nev || w.closeState.Load() != cs {
+			return false
+		}
+		if o.cp && !o2.closerInDone {
+			return false
+		}
+	}
+	return !o.cp || o.closerInDone
+}
+
+// doubtful: the observation would make a formula that is judged AT REST false (S4 SegmentClosed, S5 Restarts,
+// S6 Recorded, S7 ClosePrompt, the "no loop is left" part of S8).
+// This only decides whether the observation must be confirmed before it is logged as sure; TLC judges.
+func (w *vfx02World) doubtful(o vfx02Obs) bool {
+	if o.cp {
+		return true
+	}
+	cs := w.closeState.Load()
+	if cs == 3 {
+		// S8: a loop of the recorder that is left after Close returned
+		return o.g != 0 || o.ig != 0 || o.sg != 0
+	}
+	w.mu.Lock()
+	defer w.mu.Unlock()
+	long, errSeen, everFull, env, open, errSinceCreate := false, false, false, "ok", 0, false
+	for _, e := range w.ev {
+		switch e.K {
+		case "init":
+			long = e.A == "long"
+		case "err":
+			errSeen = true
+			errSinceCreate = true
+		case "fault":
+			env = e.A
+			if e.A == "full" {
+				everFull = true
+			}
+		case "create":
+			open++
+			errSinceCreate = false
+		case "complete":
+			open--
+		}
+	}
+	// S4: a segment that is created and not completed although its instance reported an error / nobody reads
+	if open > 0 && (errSinceCreate || o.r != 1) {
+		return true
+	}
+	if cs != 0 {
+		return false
+	}
+	if long && errSeen {
+		return false
+	}
+	if o.r != 1 || o.g != 1 {
+		return true
+	}
+	if everFull || env != "ok" {
+		return false
+	}
+	// regular units since the recorder became healthy (as S6 counts them)
+	bb := -1
+	for i := len(w.ev) - 1; i >= 0; i-- {
+		e := w.ev[i]
+		if e.K == "init" || e.K == "err" || e.K == "fault" || e.K == "closecall" || e.K == "closeret" || (e.K == "w" && e.A != "n") {
+			bb = i
+			break
+		}
+	}
+	if bb < 0 {
+		return false
+	}
+	start := bb
+	if w.ev[bb].K == "err" || w.ev[bb].K == "fault" {
+		start = -1
+		for i := bb + 1; i < len(w.ev); i++ {
+			if w.ev[i].K == "q" {
+				start = i
+				break
+			}
+		}
+		if start < 0 {
+			return false
+		}
+	}
+	n := 0
+	for i := start + 1; i < len(w.ev); i++ {
+		if w.ev[i].K == "w" && w.ev[i].A == "n" {
+			n++
+		}
+	}
+	return n >= 4 && open != 1
+}
+
 func (w *vfx02World) observe() (vfx02Obs, error) {
+	deadline := time.Now().Add(90 * time.Second)
 	for {
 		o, err := w.settle()
 		if err != nil {
 			return o, err
 		}
+		sure := false
+		if w.doubtful(o) && w.confirmed < 3 {
+			if !w.confirm(o) {
+				// not at rest after all: keep waiting
+				if time.Now().After(deadline) {
+					return o, fmt.Errorf("no confirmed quiescent point within 90 s")
+				}
+				continue
+			}
+			sure = true
+		}
 		fs := w.snapshot()
 		// the observation is logged only if nothing was logged since the quiescent point was seen
 		w.mu.Lock()
 		if len(w.ev) == o.nev {
-			w.ev = append(w.ev, vfx02Ev{K: "q", R: o.r, G: o.g, IG: o.ig, SG: o.sg, CP: o.cp, FS: fs})
+			w.ev = append(w.ev, vfx02Ev{K: "q", R: o.r, G: o.g, IG: o.ig, SG: o.sg, CP: o.cp, FS: fs, Sure: sure})
 			w.mu.Unlock()
+			if sure {
+				w.confirmed++
+			}
+			if w.keepDumps {
+				w.qdumps = append(w.qdumps, w.lastDump)
+			}
 			return o, nil
 		}
 		w.mu.Unlock()
@@ -648,7 +836,9 @@ func vfx02Exec(t testing.TB, r *vfx02Run, pauseLine int) {
 		}
 		w.cleanup()
 		r.Ms = time.Since(t0).Milliseconds()
-		if r.Truncated != "" || r.Infra != "" {
+		if vfx02Debug && len(w.qdumps) > 0 {
+			r.Dump = w.qdumps[0]
+		} else if r.Truncated != "" || r.Infra != "" || r.Inconclusive != "" {
 			r.Dump = w.lastDump
 			if len(r.Dump) > 6000 {
 				r.Dump = r.Dump[:6000]
@@ -673,7 +863,7 @@ func vfx02Exec(t testing.TB, r *vfx02Run, pauseLine int) {
 	obs := func() bool {
 		o, err := w.observe()
 		if err != nil {
-			r.Infra = err.Error()
+			r.Inconclusive = err.Error()
 			return false
 		}
 		if o.cp {
@@ -913,6 +1103,7 @@ func TestVerif_X02_Script(t *testing.T) {
 	}
 	line := vfx02Calibrate(t)
 	t.Logf("pause line %d", line)
+	vfx02Debug = os.Getenv("VERIF_X02_ANOMALY") != ""
 	for _, sc := range strings.Split(script, ";") {
 		parts := strings.SplitN(sc, ":", 3)
 		r := vfx02Run{Fmt: parts[0], Ops: []vfx02Op{{K: "Initialize", A: parts[1]}}}
@@ -935,7 +1126,7 @@ func TestVerif_X02_Script(t *testing.T) {
 		for _, e := range r.Ev {
 			switch e.K {
 			case "q":
-				fmt.Fprintf(&sb, " q[r%d g%d i%d s%d cp%v fs%d]", e.R, e.G, e.IG, e.SG, e.CP, e.FS)
+				fmt.Fprintf(&sb, " q[r%d g%d i%d s%d cp%v fs%d sure%v]", e.R, e.G, e.IG, e.SG, e.CP, e.FS, e.Sure)
 			case "peek":
 				fmt.Fprintf(&sb, " peek%d", e.R)
 			case "create", "complete":
@@ -946,9 +1137,27 @@ func TestVerif_X02_Script(t *testing.T) {
 				fmt.Fprintf(&sb, " %s%s", e.K, e.A)
 			}
 		}
-		t.Logf("%s %dms trunc=%q infra=%q\n%s\npaths=%v", sc, r.Ms, r.Truncated, r.Infra, sb.String(), r.Paths)
+		t.Logf("%s %dms trunc=%q infra=%q\n%s\npaths=%v", sc, r.Ms, r.Truncated, r.Infra+r.Inconclusive, sb.String(), r.Paths)
 		if r.Infra != "" {
 			t.Logf("dump:\n%s", r.Dump)
+		}
+		if vfx02Debug {
+			// anomaly hunt: the second observation is taken before the first create
+			nq, anomaly := 0, false
+			for _, e := range r.Ev {
+				if e.K == "q" {
+					nq++
+					if nq == 1 {
+						anomaly = true
+					}
+				}
+				if e.K == "create" {
+					break
+				}
+			}
+			if anomaly {
+				t.Logf("ANOMALY dump of the second observation:\n%s", r.Dump)
+			}
 		}
 	}
 }
